@@ -253,6 +253,10 @@ impl GenericsAnalyzer {
             syn::Type::Paren(paren) => {
                 self.extract_deps_from_type(input_sig, paren.elem.as_ref(), inside_reference)
             }
+            // (a `macro_rules!` `$t:ty` fragment arrives in an invisible group)
+            syn::Type::Group(group) => {
+                self.extract_deps_from_type(input_sig, group.elem.as_ref(), inside_reference)
+            }
             ty => {
                 self.deps_with_generics(FnDeps::Concrete(Box::new(ty.clone())), &input_sig.generics)
             }
